@@ -33,6 +33,8 @@ def main():
         # (results longer than 40 digits are not sent to Coq: decay factors with fractional exponents make the exact
         # rationals of long histories grow quickly; the count is in the evidence)
         KC.correspondence(rep, fam, 1000 if thorough else 120, 18 if thorough else 14, tag="c11", maxdigits=40)
+    import corr_tarea  # noqa: F401
+    KC.correspondence(rep, "tarea", 2000 if thorough else 200, 14 if thorough else 8, tag="c11", maxdigits=30)
     seen = M.monitor(rep, PID, fams, 2400 if thorough else 200, 24 if thorough else 14)
     # whole models (netgen): every queue tank declares what it holds plus the decay still to be booked, at both ends of
     # every timestep and after requests made directly over every arc of models that have run
